@@ -49,7 +49,8 @@ def collide(rng, d):
     if k == 5:      # the same atom at another literal offset
         return plain_decl(rng.bytes(rng.range(1, 3), ALNUM) + text, wide=rng.chance(1, 3), ascii=True)
     if k == 6:
-        return plain_decl(text + rng.bytes(rng.range(1, 3), ALNUM), fullword=rng.chance(1, 3))
+        ext = rng.choice([rng.bytes(rng.range(1, 3), ALNUM), b"\x00\x00\x00\x00", b"\x00", rng.bytes(4, ALNUM)])
+        return plain_decl(text + ext, fullword=rng.chance(1, 3))
     if k == 7:      # an encoding of d as a plain string (collides with xor / wide / base64 literals)
         e, _ = rng.choice(encodings(d) or [(text, False)])
         return plain_decl(e[:40] if e else text)
@@ -290,7 +291,13 @@ class C12(Prop):
                 [r for r in A if not r.get("global")][0]["decls"][0] = da
                 [r for r in B if not r.get("global")][0]["decls"][0] = db
                 m = bytearray((t + b"x ") * rng.range(3, 7) + t + b" ") + m[:60]
-        case = {"A": A, "B": B, "nsA": nsA, "nsB": nsB, "order": order, "mem": bytes(m[:200]).hex(),
+        m = bytearray(m[:200])
+        if rng.chance(1, 3):
+            # the input ends exactly at an occurrence of a string of A (nothing after it)
+            da = rng.choice([d for r in A for d in r["decls"]])
+            ea = rng.choice(encodings(da) or [(bytes.fromhex(da["text"]), False)])[0][:48]
+            m = m[:150] + b" " + ea
+        case = {"A": A, "B": B, "nsA": nsA, "nsB": nsB, "order": order, "mem": bytes(m).hex(),
                 "include_not_matched": rng.chance(2, 3),
                 "profile": rng.choice(["speed", "memory"]), "params": params}
         if rng.chance(1, 4):
